@@ -131,6 +131,7 @@ Ltac split_step o :=
          | |- context [if cancel_drop_removes ?x then _ else _] => destruct (cancel_drop_removes x) eqn:?
          | |- context [if reload_prunes ?x then _ else _] => destruct (reload_prunes x) eqn:?
          | |- context [if cancel_retries ?x then _ else _] => destruct (cancel_retries x) eqn:?
+         | |- context [if lookup_at_accept ?x then _ else _] => destruct (lookup_at_accept x) eqn:?
          | |- context [match csm_lookup ?k ?m with _ => _ end] => destruct (csm_lookup k m) eqn:?
          end; auto.
 
@@ -628,6 +629,20 @@ Qed.
 Lemma no_late_delivery : cancel_retries v = false -> forall ops, late_out (run E v ops) = Silent.
 Proof. intros CR ops. unfold late_out. rewrite no_pending; auto. Qed.
 
+(** The map is read when [handle] runs, not when the connection is accepted: accepting leaves no
+    trace and acting is a lookup in the state of that instant. *)
+Lemma accept_inert : lookup_at_accept v = false -> forall st k, step E v st (CancelAccept k) = st.
+Proof. intros LA st k. cbn. rewrite LA. reflexivity. Qed.
+
+Lemma act_is_lookup : lookup_at_accept v = false -> forall st k, act_out v st k = cancel_out st k.
+Proof. intros LA st k. unfold act_out. rewrite LA. reflexivity. Qed.
+
+Lemma no_accepted : lookup_at_accept v = false -> forall ops, accepted (run E v ops) = [].
+Proof.
+  intros LA ops. unfold run. apply (fold_inv (fun st => accepted st = [])); [|reflexivity].
+  intros st o H. split_step o; cbn [accepted]; try congruence. rewrite H. reflexivity.
+Qed.
+
 End Invariants.
 
 (* ------------------------------------------------------------------ witnesses *)
@@ -648,13 +663,13 @@ Qed.
     Whatever the other switch is. *)
 Definition window_ops : list op := [Checkout 0 0; ExitDropGuard 0 true; Checkout 1 0].
 
-Lemma exit_window_refuted : forall cd rp cr,
+Lemma exit_window_refuted : forall cd rp cr la,
   exists ops c1 c2 s, c1 <> c2 /\ key ex_env c1 <> key ex_env c2 /\
-    sv (run ex_env (mkVariant cd false rp cr) ops) s = HeldBy c2 /\
-    cphase (cl (run ex_env (mkVariant cd false rp cr) ops) c1) = Exiting /\
-    cancel_out (run ex_env (mkVariant cd false rp cr) ops) (key ex_env c1) = Contact (tgt ex_env s).
+    sv (run ex_env (mkVariant cd false rp cr la) ops) s = HeldBy c2 /\
+    cphase (cl (run ex_env (mkVariant cd false rp cr la) ops) c1) = Exiting /\
+    cancel_out (run ex_env (mkVariant cd false rp cr la) ops) (key ex_env c1) = Contact (tgt ex_env s).
 Proof.
-  intros cd rp cr. exists window_ops, 0, 1, 0. destruct cd, rp, cr; vm_compute; repeat split; try discriminate; reflexivity.
+  intros cd rp cr la. exists window_ops, 0, 1, 0. destruct cd, rp, cr, la; vm_compute; repeat split; try discriminate; reflexivity.
 Qed.
 
 (** The cancel-once defect of "the drop of the value that served a CancelRequest removes the key
@@ -663,11 +678,11 @@ Qed.
     holds s0.  Whatever the other switch is. *)
 Definition once_ops : list op := [Checkout 0 0; Cancel (key ex_env 0); CancelDrop (key ex_env 0)].
 
-Lemma cancel_once_refuted : forall ef rp cr,
-  exists ops c s, sv (run ex_env (mkVariant true ef rp cr) ops) s = HeldBy c /\
-    outcomes ex_env (mkVariant true ef rp cr) ops = [Contact (tgt ex_env s)] /\
-    cancel_out (run ex_env (mkVariant true ef rp cr) ops) (key ex_env c) = Silent.
-Proof. intros ef rp cr. exists once_ops, 0, 0. destruct ef, rp, cr; vm_compute; repeat split; reflexivity. Qed.
+Lemma cancel_once_refuted : forall ef rp cr la,
+  exists ops c s, sv (run ex_env (mkVariant true ef rp cr la) ops) s = HeldBy c /\
+    outcomes ex_env (mkVariant true ef rp cr la) ops = [Contact (tgt ex_env s)] /\
+    cancel_out (run ex_env (mkVariant true ef rp cr la) ops) (key ex_env c) = Silent.
+Proof. intros ef rp cr la. exists once_ops, 0, 0. destruct ef, rp, cr, la; vm_compute; repeat split; reflexivity. Qed.
 
 (** A reload that prunes the map by address (a mutant; the code does not do this): c0 runs a
     statement on s0, the configuration is reloaded so that s0's address leaves it, and a
@@ -675,10 +690,10 @@ Proof. intros ef rp cr. exists once_ops, 0, 0. destruct ef, rp, cr; vm_compute; 
     connection lives until the transaction ends).  Whatever the other switches are. *)
 Definition reload_ops : list op := [Checkout 0 0; Reload [0]].
 
-Lemma reload_prune_refuted : forall cd ef cr,
-  exists ops c s, sv (run ex_env (mkVariant cd ef true cr) ops) s = HeldBy c /\
-    cancel_out (run ex_env (mkVariant cd ef true cr) ops) (key ex_env c) = Silent.
-Proof. intros cd ef cr. exists reload_ops, 0, 0. destruct cd, ef, cr; vm_compute; split; reflexivity. Qed.
+Lemma reload_prune_refuted : forall cd ef cr la,
+  exists ops c s, sv (run ex_env (mkVariant cd ef true cr la) ops) s = HeldBy c /\
+    cancel_out (run ex_env (mkVariant cd ef true cr la) ops) (key ex_env c) = Silent.
+Proof. intros cd ef cr la. exists reload_ops, 0, 0. destruct cd, ef, cr, la; vm_compute; split; reflexivity. Qed.
 
 (** Retrying the throw-away connection with the target copied at lookup time (a mutant; the code
     makes one attempt): c0 runs a statement on s0, the connection of its CancelRequest is refused,
@@ -687,15 +702,34 @@ Proof. intros cd ef cr. exists reload_ops, 0, 0. destruct cd, ef, cr; vm_compute
 Definition late_ops : list op :=
   [Checkout 0 0; CancelRefused (key ex_env 0); ReleaseNormal 0 true; Checkout 1 0].
 
-Lemma late_delivery_refuted : forall cd ef rp,
+Lemma late_delivery_refuted : forall cd ef rp la,
   exists ops c1 c2 s, c1 <> c2 /\ key ex_env c1 <> key ex_env c2 /\
-    held (cl (run ex_env (mkVariant cd ef rp true) ops) c1) = None /\
-    cancel_out (run ex_env (mkVariant cd ef rp true) ops) (key ex_env c1) = Silent /\
-    sv (run ex_env (mkVariant cd ef rp true) ops) s = HeldBy c2 /\
-    late_out (run ex_env (mkVariant cd ef rp true) ops) = Contact (tgt ex_env s).
+    held (cl (run ex_env (mkVariant cd ef rp true la) ops) c1) = None /\
+    cancel_out (run ex_env (mkVariant cd ef rp true la) ops) (key ex_env c1) = Silent /\
+    sv (run ex_env (mkVariant cd ef rp true la) ops) s = HeldBy c2 /\
+    late_out (run ex_env (mkVariant cd ef rp true la) ops) = Contact (tgt ex_env s).
 Proof.
-  intros cd ef rp. exists late_ops, 0, 1, 0.
-  destruct cd, ef, rp; vm_compute; repeat split; try discriminate; reflexivity.
+  intros cd ef rp la. exists late_ops, 0, 1, 0.
+  destruct cd, ef, rp, la; vm_compute; repeat split; try discriminate; reflexivity.
+Qed.
+
+(** Looking the target up when the connection is accepted and using it when [handle] runs (a
+    mutant; the code reads the map in [handle]): c0 runs a statement on s0, its CancelRequest is
+    accepted and its task waits (for the accounting channel), c0's statement ends, c1 borrows s0,
+    and the request then goes to the session that now executes c1's work. *)
+Definition stale_ops : list op :=
+  [Checkout 0 0; CancelAccept (key ex_env 0); ReleaseNormal 0 true; Checkout 1 0].
+
+Lemma stale_lookup_refuted : forall cd ef rp cr,
+  exists ops c1 c2 s, c1 <> c2 /\ key ex_env c1 <> key ex_env c2 /\
+    held (cl (run ex_env (mkVariant cd ef rp cr true) ops) c1) = None /\
+    cancel_out (run ex_env (mkVariant cd ef rp cr true) ops) (key ex_env c1) = Silent /\
+    sv (run ex_env (mkVariant cd ef rp cr true) ops) s = HeldBy c2 /\
+    act_out (mkVariant cd ef rp cr true) (run ex_env (mkVariant cd ef rp cr true) ops) (key ex_env c1)
+      = Contact (tgt ex_env s).
+Proof.
+  intros cd ef rp cr. exists stale_ops, 0, 1, 0.
+  destruct cd, ef, rp, cr; vm_compute; repeat split; try discriminate; reflexivity.
 Qed.
 
 (* ------------------------------------------------------------------ the code as it is *)
@@ -737,3 +771,16 @@ Proof.
      destruct (code_targets_holder _ _ _ _ X) as (c' & s' & K & _ & H1 & H2 & _);
      apply INJ in K; subst; congruence).
 Qed.
+
+Lemma code_act_targets_holder : forall E ops k,
+  step E code_variant (run E code_variant ops) (CancelAccept k) = run E code_variant ops /\
+  act_out code_variant (run E code_variant ops) k = cancel_out (run E code_variant ops) k /\
+  (forall t, act_out code_variant (run E code_variant ops) k = Contact t ->
+     exists c s, key E c = k /\ tgt E s = t /\ held (cl (run E code_variant ops) c) = Some s /\
+                 cphase (cl (run E code_variant ops) c) = Running /\ sv (run E code_variant ops) s = HeldBy c).
+Proof.
+  intros E ops k. split; [apply accept_inert; reflexivity|].
+  split; [apply act_is_lookup; reflexivity|].
+  intros t H. rewrite act_is_lookup in H by reflexivity. apply code_targets_holder; auto.
+Qed.
+
